@@ -1,7 +1,7 @@
 (** Correspondence check for C18: one case = one shutdown scenario run on the real
     proxy.ListenAndServe* / proxy.Shutdown with wall-clock observables (milliseconds). *)
 From Coq Require Import List NArith Bool.
-From Fabio Require Import Lib.Verdict Model.Shutdown Proofs.Shutdown Model.ExitSignals.
+From Fabio Require Import Lib.Verdict Model.Shutdown Proofs.Shutdown Model.ExitSignals Model.ExitDeregister.
 Import ListNotations.
 Local Open Scope N_scope.
 
@@ -42,7 +42,15 @@ Inductive case :=
    and when the process ended, what each client saw, which connects succeeded.  Times in ms from
    the origin of the script. *)
 | CSig (wait : N) (sigs : list event) (reqs : list req) (probes : list N)
-       (impl_exit : pexit) (impl_reqs : list pobs) (impl_probes : list bool) (lo hi : N).
+       (impl_exit : pexit) (impl_reqs : list pobs) (impl_probes : list bool) (lo hi : N)
+(* the same with the consul backend and self-registration on, against an agent of the harness:
+   [boot] = the origin of the script on the clock of the registration goroutine (ms since its
+   first registration call); the agent refuses registrations from the start / fails every call
+   from [down] on (goroutine clock) / holds the deregister call for [hold] ms; [grace] =
+   -proxy.deregistergraceperiod *)
+| CDereg (wait grace boot : N) (reg_refused : bool) (down : option N) (hold : N)
+         (sigs : list event) (reqs : list req) (probes : list N)
+         (impl_exit : pexit) (impl_reqs : list pobs) (impl_probes : list bool) (lo hi : N).
 
 Definition near (lo hi m t : N) : bool := (m <=? t + lo) && (t <=? m + hi).
 
@@ -202,8 +210,36 @@ Definition check_sig (wait : N) (sigs : list event) (reqs : list req) (probes : 
   verdict same (sig_spec wait sigs reqs probes x os acc) None
           (negb (match sigs with [] => true | _ => false end)).
 
+(* the exit handler with the deregistration in front.  Spec from the script alone: shutdown
+   begins at the first SIGINT/SIGTERM plus the configured grace period, whatever the agent does.
+   Region 4 (F-C18-4): the agent holds the deregister call for at least the margin. *)
+Definition dereg_spec (wait grace : N) (sigs : list event) (reqs : list req) (probes : list N)
+           (x : pexit) (os : list pobs) (acc : list bool) : bool :=
+  sig_spec wait (match first_term sigs with Some t0 => [(t0 + grace, STerm)] | None => [] end)
+           reqs probes x os acc.
+
+Definition check_dereg (wait grace boot : N) (refused : bool) (down : option N) (hold : N)
+           (sigs : list event) (reqs : list req) (probes : list N)
+           (x : pexit) (os : list pobs) (acc : list bool) (lo hi : N) : N :=
+  let work := main_work reqs in
+  match proc_phase false true (script_agent refused down hold) boot grace sigs with
+  | None => v_disagree     (* out of fuel: excluded by C18_deregister_always_answered *)
+  | Some ph =>
+      let t0 := match drain_start ph with Some t0 => t0 | None => 0 end in
+      let busy := negb (match litems (proxy_leaf reqs t0) with [] => true | _ => false end) in
+      let same :=
+        exit_matches lo hi (t0 + wait) busy (phase_end wait work ph) x
+        && all2 (fun q o => qout_matches lo hi (req_outcome_in wait reqs ph q) o) reqs os
+        && all2 (fun p a => Bool.eqb (proc_accepts wait work ph p) a) probes acc in
+      verdict same (dereg_spec wait grace sigs reqs probes x os acc)
+              (if spec_margin <=? hold then Some 4 else None)
+              (match first_term sigs with Some _ => true | None => false end)
+  end.
+
 Definition check_case (c : case) : N :=
   match c with
+  | CDereg wait grace boot refused down hold sigs reqs probes x os acc lo hi =>
+      check_dereg wait grace boot refused down hold sigs reqs probes x os acc lo hi
   | CSig wait sigs reqs probes x os acc lo hi => check_sig wait sigs reqs probes x os acc lo hi
   | CScen wait hist impl_T probe_at acc1 acc2 impl lo hi =>
       let srvs := history_servers hist in
